@@ -126,7 +126,7 @@ def search(prop, tier, seed, scratch, root, cases=None):
         rr['fails'] = True
     if not rr['fails']:
         row['result'] = 'no deviation'; row['distinct_nontrivial'] = j.get('distinct_streams', 0)
-        row['bound'] = '%d random streams (generator: frames, lists, ACKs, binary incl. >4 KiB, truncation/corruption) x random segmentations, seed %d' % (n, seed + 1)
+        row['bound'] = '%d random streams (generator: frames, lists, ACKs, binary incl. > 4 KiB and, one payload in 24, 70-210 KiB so that the buffer grows past 128 KiB; truncation/corruption) x random segmentations, seed %d' % (n, seed + 1)
         return row
     row['result'] = 'DEVIATION'
     row['deviation'] = j
